@@ -15,6 +15,9 @@ import sys
 sys.path.insert(0, os.path.dirname(os.path.dirname(os.path.abspath(__file__))))
 
 
+from sa.normalize import fingerprint  # noqa: E402
+
+
 def main():
     repo = sys.argv[1] if len(sys.argv) > 1 else '/repo'
     inv = {}
@@ -28,11 +31,12 @@ def main():
             rel = os.path.relpath(p, repo)
             tree = ast.parse(open(p, encoding='utf-8').read())
             funcs, consts, classes = [], [], []
+            const_values = {}
             profiles = {}
 
             def prof(q, node):
                 a = node.args
-                profiles[q] = {'nargs': len(a.posonlyargs + a.args + a.kwonlyargs), 'async': isinstance(node, ast.AsyncFunctionDef), 'gen': any(isinstance(x, (ast.Yield, ast.YieldFrom)) for x in ast.walk(node)), 'size': sum(1 for _ in ast.walk(node))}
+                profiles[q] = {'nargs': len(a.posonlyargs + a.args + a.kwonlyargs), 'async': isinstance(node, ast.AsyncFunctionDef), 'gen': any(isinstance(x, (ast.Yield, ast.YieldFrom)) for x in ast.walk(node)), 'size': sum(1 for _ in ast.walk(node)), 'tokens': fingerprint(node)}
 
             def rec(body, prefix, in_class):
                 for st in body:
@@ -48,6 +52,7 @@ def main():
                         for t in st.targets:
                             if isinstance(t, ast.Name):
                                 consts.append(prefix + t.id)
+                                const_values[prefix + t.id] = ast.dump(st.value)[:400]
                     elif isinstance(st, ast.AnnAssign) and isinstance(st.target, ast.Name):
                         consts.append(prefix + st.target.id)
                     elif isinstance(st, (ast.If, ast.Try)):
@@ -70,7 +75,7 @@ def main():
                     stack.extend(ast.iter_child_nodes(n))
 
             rec(tree.body, '', False)
-            inv[rel] = {'functions': sorted(set(funcs)), 'constants': sorted(set(consts)), 'classes': sorted(set(classes)), 'profiles': profiles}
+            inv[rel] = {'functions': sorted(set(funcs)), 'constants': sorted(set(consts)), 'classes': sorted(set(classes)), 'profiles': profiles, 'const_values': const_values}
     out = os.path.join(os.path.dirname(os.path.dirname(os.path.abspath(__file__))), 'sa', 'inventory.json')
     json.dump(inv, open(out, 'w'), indent=1, sort_keys=True)
     print(out, sum(len(v['functions']) for v in inv.values()), 'functions', sum(len(v['constants']) for v in inv.values()), 'constants')
